@@ -243,6 +243,22 @@ func verifyVariant(p *Program, con *Contract, choice []enumChoice, mode string, 
 			}
 			if lit != nil {
 				c.rewrite[ev.T.id] = lit
+				// a parameter (or any variable) holding exactly this term gets the literal directly
+				for k, v := range st.vars {
+					if v.T == ev.T {
+						v.T = lit
+						st.vars[k] = v
+					}
+					if v.IsSlice() {
+						if v.Len == ev.T {
+							v.Len = lit
+						}
+						if v.Cap == ev.T {
+							v.Cap = lit
+						}
+						st.vars[k] = v
+					}
+				}
 			}
 		}
 	}
